@@ -354,6 +354,47 @@ template<typename F> struct Program {
     cnt("query");
     verify_all("query");
   }
+  void pin_library_rng(uint64_t seed) {
+    datasketches::random_utils::rand.seed(static_cast<std::mt19937_64::result_type>(seed));
+    datasketches::random_utils::random_bit.seed(seed ^ 0x9e3779b97f4a7c15ULL);
+  }
+  // A copy (or move target vs. a saved copy of the former source) must also BEHAVE like its source: the same
+  // short operation sequence (reset where offered, updates with identical inputs and pinned library randomness,
+  // merge with the same operand, trim/compress through mutate, serialization through the read-out) is run on
+  // both objects and the read-outs must still agree.  This reaches configuration fields no getter exposes.
+  bool want_twin() { return r.chance(0.4); }
+  void twin(S* a, S* b, const char* after) {
+    const uint64_t seed = r.next();
+    S* operand = F::HAS_MERGE_REF ? pick_valid(a, b) : nullptr;
+    tr(std::string("twin#") + std::to_string(find_idx(a)) + "~#" + std::to_string(find_idx(b)));
+    std::string steps;
+    for (S* s : {a, b}) {
+      Rng t(seed);
+      pin_library_rng(seed);
+      steps.clear();
+      LibScope ls("twin-sequence");
+      if (F::HAS_RESET && t.chance(0.6)) { F::reset(s->o(), cfg); steps += "reset,"; }
+      F::mutate(s->o(), cfg, t, &arena0); steps += "mutate,";
+      if (operand && t.coin()) { F::merge_ref(s->o(), operand->co(), cfg); steps += "merge,"; }
+      if (t.chance(0.3)) { F::mutate(s->o(), cfg, t, &arena0); steps += "mutate,"; }
+    }
+    const std::string ra = read(*a), rb = read(*b);
+    checked();
+    if (ra != rb) fail(fam + "|twin|diverged-after-" + after,
+                       std::string("objects that were equal after ") + after + " were given the same operations (" + steps + ") with the same inputs and pinned library randomness and now differ: " + first_diff(ra, rb) + " trace=" + trace);
+    a->ro = ra; b->ro = rb;
+    { std::string op = after; std::replace(op.begin(), op.end(), '-', '_'); count(fam + ".twin_sequence_after_" + op); }
+    pin_library_rng(r.next());
+  }
+  // saved copy of an object that is about to be moved from (nullptr if no twin check this time)
+  S* clone_for_twin(S* x) {
+    if (!want_twin()) return nullptr;
+    S* c = new_slot();
+    { LibScope ls("copy-construct"); new (c->mem) Obj(x->co()); }
+    c->constructed = c->valid = true;
+    c->ro = x->ro;
+    return c;
+  }
   void op_copy_ctor(S* x) {
     S* y = new_slot();
     tr("copy-ctor#" + std::to_string(find_idx(x)) + "->#" + std::to_string(pool.size() - 1));
@@ -361,6 +402,7 @@ template<typename F> struct Program {
     y->constructed = y->valid = true;
     expect_eq(*y, x->ro, "copy-ctor|copy-differs-from-source", "read-out of the copy differs from the source's");
     cnt("copy_ctor"); count(fam + ".copy_ctor_in_mode_" + F::mode(x->co(), cfg));
+    if (want_twin()) twin(x, y, "copy-construct");
     verify_all("copy-construct");
   }
   // what happens to an object that has just been moved from
@@ -397,10 +439,13 @@ template<typename F> struct Program {
     tr("move-ctor#" + std::to_string(find_idx(x)) + "->#" + std::to_string(pool.size() - 1));
     const std::string want = x->ro;
     count(fam + ".move_ctor_in_mode_" + F::mode(x->co(), cfg));
+    S* saved = clone_for_twin(x);
     { LibScope ls("move-construct"); new (y->mem) Obj(std::move(x->o())); }
     y->constructed = y->valid = true;
     expect_eq(*y, want, "move-ctor|target-differs-from-former-source", "move-constructed object does not have the source's former read-out");
     cnt("move_ctor");
+    x->valid = false; x->ro.clear();
+    if (saved) { twin(y, saved, "move-construct"); destroy(saved, "destroy"); }   // before the source is recycled
     dispose_moved_from(x);
     verify_all("move-construct");
   }
@@ -412,6 +457,7 @@ template<typename F> struct Program {
     x->valid = true;
     expect_eq(*x, y->ro, "copy-assign|target-differs-from-source", "after x = y the read-out of x differs from y's");
     cnt(was_valid ? "copy_assign" : "copy_assign_to_moved_from");
+    if (want_twin()) twin(x, y, "copy-assign");
     verify_all("copy-assign");
   }
   void op_move_assign(S* x, S* y) {   // x = std::move(y)
@@ -419,10 +465,13 @@ template<typename F> struct Program {
     const std::string want = y->ro;
     const bool was_valid = x->valid;
     if (!was_valid && !probe("moved-from|move-assign-to-moved-from", [&] { x->o() = std::move(y->o()); (void)F::readout(x->co(), cfg); })) { destroy(x, "destroy-moved-from"); return; }
+    S* saved = clone_for_twin(y);
     { LibScope ls(was_valid ? "move-assign" : "move-assign-to-moved-from"); x->o() = std::move(y->o()); }
     x->valid = true;
     expect_eq(*x, want, "move-assign|target-differs-from-former-source", "after x = std::move(y) x does not have y's former read-out");
     cnt(was_valid ? "move_assign" : "move_assign_to_moved_from");
+    y->valid = false; y->ro.clear();
+    if (saved) { twin(x, saved, "move-assign"); destroy(saved, "destroy"); }   // before the source is recycled
     dispose_moved_from(y);
     verify_all("move-assign");
   }
@@ -464,6 +513,7 @@ template<typename F> struct Program {
     expect_eq(*b, c->ro, "chain-assign|middle-differs", "after a = b = c the read-out of b differs from c's");
     expect_eq(*a, c->ro, "chain-assign|left-differs", "after a = b = c the read-out of a differs from c's");
     cnt("chain_assign");
+    if (want_twin()) twin(a, c, "chain-assign");
     verify_all("chain-assign");
   }
   void op_swap(S* x, S* y) {
